@@ -3,13 +3,17 @@ import TonicModel.Spec.GrpcWeb
 import TonicModel.Lemmas.GrpcWeb
 import TonicModel.Lemmas.WebServer
 import TonicModel.Lemmas.WebClient
+import TonicModel.Lemmas.WebClientBlock
+import TonicModel.Lemmas.WebCaller
 /-
 C17 — grpc-web client layer recovers messages and full trailers under any chunking.
 Property theorems only; helper lemmas live in `Lemmas/WebClient` (and `Lemmas/GrpcWeb`).
 
-`WebClient.Fixed` is the client decode loop of tonic-web with fixes/fix-C17-1..4 applied (that
-is what the correspondence run drives); `WebClient.AsIs` is the loop at the pinned commit, kept
-for the `_fails` witnesses of DESIGN §5.8.  A body is the list of events its `poll_frame`
+`WebClient.Fixed` is the client decode loop of tonic-web with the five `fix:` commits applied
+(known_findings.json "fixed: property=C17"; that is what the correspondence run drives);
+`WebClient.AsIs` is the loop at the pinned commit, kept for the `_fails` witnesses of DESIGN
+§5.8.  `WebCaller` composes the loop with tonic's status codec (`Model/Status`): what the caller
+of `client::Grpc` sees.  A body is the list of events its `poll_frame`
 produces; `observe` is the list of frames the caller gets until the first `None` / error.
 -/
 namespace C17
@@ -37,8 +41,8 @@ theorem C17_lossless (sp : Bool) (frames : List (Bool × Bytes)) (trailers : Lis
       datas.flatten = framesBytes frames := by
   unfold Fixed.observe
   rw [run_filter, hsched]
-  exact run_valid sp trailers trailers (decode_trailersFrame sp trailers htr) hlen chunks frames []
-    hframes (by simpa using hbody)
+  exact run_valid (trailersBlock sp trailers) trailers (decode_trailersFrame sp trailers htr) hlen
+    chunks frames [] hframes (by simpa [trailersFrame] using hbody)
 
 /-- `C17_lossless` for servers that write trailer names in any case (`Grpc-Status: 0`): the
 names arrive in lower case (field names are case-insensitive), everything else as above. -/
@@ -55,8 +59,132 @@ theorem C17_lossless_any_case (sp : Bool) (frames : List (Bool × Bytes)) (trail
       datas.flatten = framesBytes frames := by
   unfold Fixed.observe
   rw [run_filter, hsched]
-  exact run_valid sp trailers _ (decode_trailersFrame_any sp trailers htr) hlen chunks frames []
-    hframes (by simpa using hbody)
+  exact run_valid (trailersBlock sp trailers) _ (decode_trailersFrame_any sp trailers htr) hlen
+    chunks frames [] hframes (by simpa [trailersFrame] using hbody)
+
+/-- **The caller sees the server's real status.**  Under the hypotheses of `C17_lossless` (any
+message frames, any trailers the server wrote — status, message, details, custom metadata, in
+any order, names repeated —, either style, any chunking, any `Pending`s): the trailers map the
+layer hands to tonic's `Streaming` is the server's, so the status tonic reads from it
+(`Status::from_header_map`, percent-decoding, base64 details, code table: `Model/Status`) is the
+status read from the server's trailers, and the call ends for the caller exactly as
+`infer_grpc_status(server's trailers, 200)` says — with that status if it is a failing one,
+cleanly with the trailers retrievable otherwise. -/
+theorem C17_caller_sees_status (sp : Bool) (frames : List (Bool × Bytes)) (trailers : List Pair)
+    (chunks : List Bytes) (evs : List BodyEv)
+    (hsched : evs.filter notPending = chunks.map BodyEv.data)
+    (hbody : chunks.flatten = framesBytes frames ++ trailersFrame sp trailers)
+    (hframes : ∀ f ∈ frames, f.2.length < 4294967296)
+    (htr : ∀ p ∈ trailers, lowerNameOk p.1 = true ∧ plainValueOk p.2 = true)
+    (hlen : (trailersBlock sp trailers).length < 4294967296) :
+    ∃ t, WebCaller.trailersOf (Fixed.observe evs) = some t ∧
+      Status.fromHeaderMap .fixed t = Status.fromHeaderMap .fixed trailers ∧
+      WebCaller.endOf (Fixed.observe evs) =
+        (match Status.inferGrpcStatus .fixed (some trailers) 200 with
+         | .done => WebCaller.End.ok (some trailers)
+         | .noStatus => WebCaller.End.ok (some trailers)
+         | .err st => WebCaller.End.status st
+         | .panic => WebCaller.End.panic) := by
+  obtain ⟨datas, hobs, _⟩ :=
+    C17_lossless sp frames trailers chunks evs hsched hbody hframes htr hlen
+  obtain ⟨_, h2, h3⟩ := WebCallerLemmas.view_of_clean datas trailers
+  refine ⟨trailers, by rw [hobs, h2], rfl, ?_⟩
+  have hne : ((List.map Out.data datas ++ [Out.trailers trailers, Out.eos]).getLast? == some Out.err) = false := by
+    rw [h3]; rfl
+  simp only [WebCaller.endOf, hobs, hne, Bool.false_eq_true, if_false, h2]
+  cases Status.inferGrpcStatus .fixed (some trailers) 200 <;> rfl
+
+/-- … and the messages the caller's `Streaming` cuts out of the delivered data are the
+payloads the server framed (uncompressed frames, as a client without `grpc-encoding` gets). -/
+theorem C17_caller_sees_messages (sp : Bool) (frames : List (Bool × Bytes)) (trailers : List Pair)
+    (chunks : List Bytes) (evs : List BodyEv)
+    (hsched : evs.filter notPending = chunks.map BodyEv.data)
+    (hbody : chunks.flatten = framesBytes frames ++ trailersFrame sp trailers)
+    (hframes : ∀ f ∈ frames, f.1 = false ∧ f.2.length < 4294967296)
+    (htr : ∀ p ∈ trailers, lowerNameOk p.1 = true ∧ plainValueOk p.2 = true)
+    (hlen : (trailersBlock sp trailers).length < 4294967296) :
+    (WebCaller.streaming (Fixed.observe evs)).msgs = frames.map (·.2) := by
+  obtain ⟨datas, hobs, hflat⟩ :=
+    C17_lossless sp frames trailers chunks evs hsched hbody (fun f hf => (hframes f hf).2) htr hlen
+  obtain ⟨h1, _, _⟩ := WebCallerLemmas.view_of_clean datas trailers
+  simp only [WebCaller.streaming, hobs, h1, hflat]
+  exact WebCallerLemmas.messages_frames frames hframes
+
+/-- **Through both layers.**  The inner gRPC service of a tonic-web SERVER ends its response
+with the trailers map `h` (built by appending, names may repeat); the server layer writes its
+binary-mode body (`WebServer.respRun`, C16); that body reaches a tonic-web CLIENT cut into
+chunks in any way.  Then the client layer hands out the message frames and one trailers map
+that has, under every name, exactly the values of `h` in their order — so the status tonic reads
+on the client (`Status::from_header_map`) has the code, message and details the service set,
+and the same further metadata name by name. -/
+theorem C17_status_through_both_layers (frames : List (Bool × Bytes)) (h : List Pair)
+    (chunks : List Bytes) (evs : List BodyEv) (cchunks : List Bytes) (cevs : List BodyEv)
+    (hsched : evs.filter notPending = chunks.map BodyEv.data ++ [BodyEv.trailers h])
+    (hchunks : chunks.flatten = framesBytes frames)
+    (hcsched : cevs.filter notPending = cchunks.map BodyEv.data)
+    (hwire : cchunks.flatten = WebServer.dataOf (WebServer.respRun WebServer.Enc.none evs))
+    (hframes : ∀ f ∈ frames, f.2.length < 4294967296)
+    (htr : ∀ p ∈ h, lowerNameOk p.1 = true ∧ plainValueOk p.2 = true)
+    (hlen : (WebServer.encodeTrailers h).length < 4294967296) :
+    ∃ (datas : List Bytes) (t : List Pair),
+      Fixed.observe cevs = datas.map Out.data ++ [Out.trailers t, Out.eos] ∧
+      datas.flatten = framesBytes frames ∧
+      (∀ k, TMap.getAll k t = TMap.getAll k h) ∧
+      WebCallerLemmas.SameStatus (Status.fromHeaderMap .fixed t) (Status.fromHeaderMap .fixed h) := by
+  -- what the server layer wrote
+  have hblock : trailersBlock false (TMap.group h) = WebServer.encodeTrailers h := by
+    simp only [WebServer.encodeTrailers, trailersBlock]
+    congr 1
+  have hframe : WebServer.makeTrailersFrame h = trailersFrame false (TMap.group h) := by
+    simp only [WebServer.makeTrailersFrame, trailersFrame, Spec.GrpcWeb.rawFrame, hblock]
+  have hserver : WebServer.dataOf (WebServer.respRun WebServer.Enc.none evs) =
+      framesBytes frames ++ trailersFrame false (TMap.group h) := by
+    rw [WebServerLemmas.respRun_filter, hsched, WebServerLemmas.respRun_data]
+    have : (fun c => Out.data (WebServer.wrap WebServer.Enc.none c)) = Out.data := by
+      funext c; rfl
+    rw [this, WebCallerLemmas.dataOf_datas, hchunks]
+    simp [WebServer.respRun, WebServer.dataOf, WebServer.wrap, hframe]
+  have htr' : ∀ p ∈ TMap.group h, lowerNameOk p.1 = true ∧ plainValueOk p.2 = true :=
+    fun p hp => htr p ((TMap.group_mem p h).1 hp)
+  obtain ⟨datas, hobs, hflat⟩ := C17_lossless false frames (TMap.group h) cchunks cevs hcsched
+    (by rw [hwire, hserver]) hframes htr' (by rw [hblock]; exact hlen)
+  refine ⟨datas, TMap.group h, hobs, hflat, fun k => TMap.getAll_group k h, ?_⟩
+  apply WebCallerLemmas.fromHeaderMap_ext
+  intro k
+  rw [WebCallerLemmas.hmap_getAll_eq_tmap, WebCallerLemmas.hmap_getAll_eq_tmap, TMap.getAll_group]
+
+/-- **Malformed trailer blocks: an error, or nothing dropped.**  The body is any message frames
+followed by a trailers frame whose block is ARBITRARY bytes (lines without a colon, bytes no
+field may carry, a last line without CRLF, bare CRs, …), cut into chunks in any way.  Then the
+caller's stream either ends in an error, or it hands out the message frames and ONE trailers map
+that lists every line of the block — CRLF-separated, the last one possibly unterminated — with
+its name (lower case) and its full value (only the one optional space after the colon removed):
+never a clean end that hides a line (a status line in particular) that was present. -/
+theorem C17_malformed_block_error_or_complete (frames : List (Bool × Bytes)) (blk : Bytes)
+    (chunks : List Bytes) (evs : List BodyEv)
+    (hsched : evs.filter notPending = chunks.map BodyEv.data)
+    (hbody : chunks.flatten = framesBytes frames ++ Spec.GrpcWeb.rawFrame 128 blk)
+    (hframes : ∀ f ∈ frames, f.2.length < 4294967296)
+    (hlen : blk.length < 4294967296) :
+    (Fixed.observe evs).getLast? = some Out.err ∨
+    ∃ (datas : List Bytes) (raw : List Pair),
+      Fixed.observe evs =
+        datas.map Out.data ++ [Out.trailers (Spec.GrpcWeb.exactPairs raw), Out.eos] ∧
+      datas.flatten = framesBytes frames ∧
+      Spec.GrpcWeb.readBlockLoose blk = some raw := by
+  unfold Fixed.observe
+  rw [run_filter, hsched]
+  cases hdec : decodeTrailersFrame true (Spec.GrpcWeb.rawFrame 128 blk) with
+  | none =>
+    exact Or.inl (run_bad_block blk hdec hlen chunks frames [] hframes (by simpa using hbody))
+  | some r =>
+    cases r with
+    | none => exact absurd hdec (decode_rawFrame_ne_none blk)
+    | some t =>
+      obtain ⟨raw, hraw, ht⟩ := decode_lists_every_line blk t hdec
+      obtain ⟨datas, hrun, hflat⟩ :=
+        run_valid blk t hdec hlen chunks frames [] hframes (by simpa using hbody)
+      exact Or.inr ⟨datas, raw, by rw [hrun, ht], hflat, hraw⟩
 
 /-- The input domain of `C17_lossless` is what the independent grpc-web reader reads as
 "these message frames, then exactly one trailers frame with these entries" (shown for the
@@ -213,6 +341,35 @@ theorem C17_total_fails_busy_loop :
     AsIs.observe 1000 [.data [0, 0, 0, 0, 2, 9]] = ([], true, 1001) := by
   decide +kernel
 
+private def unterminated : Bytes := 128 :: u32be 14 ++ str "grpc-status:13"
+private def bareCr : Bytes := 128 :: u32be 36 ++ str "grpc-status:0\r\nx: v\rgrpc-status:13\r\n"
+
+/-- (f) found by the second review round, in the tree with repairs (a)–(e): a last trailer line
+without its CRLF was dropped.  `decode_trailers_frame` as found (`whole := false`) turns a
+trailers frame that says `grpc-status:13` into an EMPTY map — and for the caller a stream that
+ends with empty trailers is a success (the loop at the pinned commit does the same). -/
+theorem C17_unterminated_line_fails :
+    decodeTrailersFrame true unterminated false = some (some []) ∧
+    WebCaller.endOf [Out.trailers [], Out.eos] = WebCaller.End.ok (some []) ∧
+    AsIs.observe 1000 [.data unterminated] = ([.trailers [], .eos], false, 0) := by
+  decide +kernel
+
+/-- (g) likewise: in a value that starts with the optional space, everything after a bare CR
+was cut off — here a second status line. -/
+theorem C17_bare_cr_fails :
+    decodeTrailersFrame true bareCr false =
+      some (some [(str "grpc-status", str "0"), (str "x", str "v")]) := by
+  decide +kernel
+
+/-- … repaired (fix f9e3e878): the unterminated line is read, the caller gets INTERNAL; the bare
+CR makes the block an error. -/
+theorem C17_block_witnesses_repaired :
+    Fixed.observe [.data unterminated] = [.trailers [(str "grpc-status", str "13")], .eos] ∧
+    WebCaller.endOf (Fixed.observe [.data unterminated]) =
+      WebCaller.End.status { code := .internal, message := [], details := [], metadata := [] } ∧
+    Fixed.observe [.data bareCr] = [.err] := by
+  decide +kernel
+
 /-- … and the repaired loop on the same witnesses. -/
 theorem C17_witnesses_repaired :
     Fixed.observe [.data (msg ++ tf0)] = [.data msg, .trailers [(str "grpc-status", str "0")], .eos] ∧
@@ -238,6 +395,19 @@ example :
     (∀ p ∈ trailers, lowerNameOk p.1 = true ∧ plainValueOk p.2 = true) ∧
     Fixed.observe [.data (body.take 3), .pending, .data ((body.drop 3).take 11), .data [], .data (body.drop 14)] =
       [.data [0, 0, 0, 0, 2, 9, 9, 1, 0, 0, 0, 0], .trailers trailers, .eos] := by
+  decide +kernel
+
+-- the caller's view of a failing call: status 5 with a percent-encoded message containing ':',
+-- base64 details and a repeated custom name, in `name: value` style, cut inside the trailers frame
+example :
+    let trailers : List Pair := [(str "x-a", str "1"), (str "grpc-message", str "not%20found: a%3Ab"),
+      (str "grpc-status", str "5"), (str "grpc-status-details-bin", str "AQID"), (str "x-a", str "2")]
+    let body := framesBytes [(false, [7, 8])] ++ trailersFrame true trailers
+    (∀ p ∈ trailers, lowerNameOk p.1 = true ∧ plainValueOk p.2 = true) ∧
+    WebCaller.streaming (Fixed.observe [.data (body.take 20), .pending, .data (body.drop 20)]) =
+      { msgs := [[7, 8]],
+        fin := .status { code := .notFound, message := str "not found: a:b", details := [1, 2, 3],
+                         metadata := [(str "x-a", str "1"), (str "x-a", str "2")] } } := by
   decide +kernel
 
 example : ¬ WellFramed [0, 0, 0] := by decide
